@@ -505,18 +505,7 @@ func (m *Model) RunTextFlow(s *Sink, rule string) {
 						}
 					}
 				}
-				escaped := allPathsEstablish(b, func(f Fact) bool {
-					ex, ok := f.Cond.(*ssa.Extract)
-					if !ok || !f.Holds || ex.Index != 1 {
-						return false
-					}
-					call, ok := ex.Tuple.(*ssa.Call)
-					if !ok || call.Call.StaticCallee() == nil {
-						return false
-					}
-					nm := canonFnName(call.Call.StaticCallee())
-					return nm == "isDirectiveToken" || nm == "areBracesToken"
-				}, 0)
+				escaped := allPathsEstablish(b, func(f Fact) bool { return f.Holds && m.isEscapeFlag(f.Cond, 0) }, 0)
 				key := fk + "|only the escape backslash is removed"
 				if oneByte && escaped {
 					s.OK(rule, key, m.InstrPos(sl), "text[:len(text)-1] under the escaped-directive / escaped-braces flag")
@@ -863,6 +852,11 @@ func (m *Model) RunTextFlow(s *Sink, rule string) {
 					if c, isC := ex.Tuple.(*ssa.Call); isC && isTerm(c, "strings.Cut") {
 						seenTerm = true
 					}
+				}
+				// a predicate of the lexer (`l.atCommentEnd()`), decided by cases on real lexer states: true exactly where
+				// the input at the current position starts with the terminator
+				if c, isC := f.Cond.(*ssa.Call); isC && f.Holds && c.Call.StaticCallee() != nil && m.InModule(c.Call.StaticCallee()) && m.isCommentEndPredicate(c.Call.StaticCallee()) {
+					seenTerm = true
 				}
 			}
 			if !seenTerm && !m.everyPathSeesTerminator(sc, b, func(c *ssa.Call) bool { return isTerm(c, "strings.HasPrefix") }) {
@@ -1285,4 +1279,115 @@ func (m *Model) RunLexInput(s *Sink, rule string) {
 			s.Undecided(rule, "lexer.New|callers", "-", "no caller of lexer.New in the library")
 		}
 	}
+}
+
+// isCommentEndPredicate: fn(lexer) bool, evaluated on the lexer states New leaves for a family of inputs (and some
+// reads further), answers true exactly when the rest of the input at the current position starts with "--}}".
+func (m *Model) isCommentEndPredicate(fn *ssa.Function) bool {
+	if m.cePred == nil {
+		m.cePred = map[*ssa.Function]bool{}
+	}
+	if v, ok := m.cePred[fn]; ok {
+		return v
+	}
+	m.cePred[fn] = false
+	if fn.Blocks == nil || len(fn.Params) != 1 || fn.Signature.Results().Len() != 1 || !isBoolT(fn.Signature.Results().At(0).Type()) {
+		return false
+	}
+	type cs struct {
+		in    string
+		steps int
+	}
+	cases := []cs{{"--}}", 0}, {"--}}x", 0}, {"--}", 0}, {"--", 0}, {"-", 0}, {"", 0}, {"-}}}", 0}, {"--}x", 0}, {"-x}}", 0}, {"x-}}", 0}, {"x--}}", 0}, {"x--}}", 1},
+		{"---}}", 0}, {"---}}", 1}, {"ab--}}cd", 2}, {"ab--}}cd", 3}, {"--}}--}}", 4}, {"}}--", 0}, {"--} }", 0}, {"- -}}", 0}}
+	for _, c := range cases {
+		lx, ok := m.lexerAt(c.in, c.steps)
+		if !ok {
+			return false
+		}
+		ip := &Interp{m: m, useGlobals: true}
+		res, okR := ip.Run(fn, []any{lx})
+		rc, isC := res.(constant.Value)
+		if !okR || !isC || rc.Kind() != constant.Bool || ip.stuck != "" || len(ip.lost) > 0 {
+			return false
+		}
+		want := c.steps <= len(c.in) && strings.HasPrefix(c.in[c.steps:], "--}}")
+		if constant.BoolVal(rc) != want {
+			return false
+		}
+	}
+	m.cePred[fn] = true
+	return true
+}
+
+// isEscapeFlag: v is the "escaped" result of isDirectiveToken / areBracesToken — directly, as `a || b` of the two, or
+// as a result of a lexer helper every return of which hands back such a value (or false).
+func (m *Model) isEscapeFlag(v ssa.Value, d int) bool {
+	if d > 4 {
+		return false
+	}
+	switch x := v.(type) {
+	case *ssa.Extract:
+		call, ok := x.Tuple.(*ssa.Call)
+		if !ok || call.Call.StaticCallee() == nil {
+			return false
+		}
+		sc := call.Call.StaticCallee()
+		if nm := canonFnName(sc); (nm == "isDirectiveToken" || nm == "areBracesToken") && x.Index == 1 {
+			return true
+		}
+		if !m.InModule(sc) || sc.Blocks == nil || shortPkg(fnPkgPath(sc)) != "lexer" {
+			return false
+		}
+		n := 0
+		for _, b := range sc.Blocks {
+			ret, isRet := b.Instrs[len(b.Instrs)-1].(*ssa.Return)
+			if !isRet || x.Index >= len(ret.Results) {
+				continue
+			}
+			rv := ret.Results[x.Index]
+			if k, isK := rv.(*ssa.Const); isK && k.Value != nil && k.Value.String() == "false" {
+				continue
+			}
+			n++
+			if !m.isEscapeFlag(rv, d+1) {
+				return false
+			}
+		}
+		return n > 0
+	case *ssa.Phi:
+		n := 0
+		for i, e := range x.Edges {
+			if k, isK := e.(*ssa.Const); isK && k.Value != nil {
+				if k.Value.String() == "false" {
+					continue
+				}
+				// `a || b`: the edge that carries true comes from where a holds
+				okEdge := false
+				if i < len(x.Block().Preds) {
+					for _, f := range expandFacts(edgeFact(x.Block().Preds[i], x.Block())) {
+						if f.Holds && m.isEscapeFlag(f.Cond, d+1) {
+							okEdge = true
+						}
+					}
+					for _, f := range expandFacts(factsAt(x.Block().Preds[i])) {
+						if f.Holds && m.isEscapeFlag(f.Cond, d+1) {
+							okEdge = true
+						}
+					}
+				}
+				if !okEdge {
+					return false
+				}
+				n++
+				continue
+			}
+			if !m.isEscapeFlag(e, d+1) {
+				return false
+			}
+			n++
+		}
+		return n > 0
+	}
+	return false
 }
